@@ -1214,6 +1214,9 @@ def b_tuple(eng, x=()):
         it = make_iter(eng, x)
         if it.concrete is None and not isinstance(it.n, int):
             return SV(type_of(x), to_z3(x))      # tuple(seq) of symbolic length: the same sequence as an immutable value
+    if isinstance(x, IterV) and x.concrete is None and not isinstance(x.n, int):
+        b = iter_to_list(eng, x)                 # tuple(<generator over a symbolic sequence>): its elements, immutable
+        return SV(b.ty, b.e)
     return tuple(eng.concrete_list(x))
 
 
